@@ -87,8 +87,10 @@ impl Problem for KInst {
         if dec.value == 1 { r.cap -= self.weight[dec.variable.0]; }
         r
     }
-    fn transition_cost(&self, _s: &KState, _d: &KState, dec: Decision) -> isize {
-        self.profit[dec.variable.0] * dec.value
+    /// the reward is read off the *pair* of states (the item was taken iff the capacity dropped: weights are >= 1), not
+    /// off the decision: the destination argument is a legal part of the contract that a model may rely on
+    fn transition_cost(&self, s: &KState, d: &KState, dec: Decision) -> isize {
+        if d.cap < s.cap { self.profit[dec.variable.0] } else { 0 }
     }
     fn next_variable(&self, depth: usize, _n: &mut dyn Iterator<Item = &KState>) -> Option<Variable> {
         if depth < self.n { Some(Variable(depth)) } else { None }
@@ -124,6 +126,7 @@ impl StateRanking for KRank {
             RankKind::Natural => a.cap.cmp(&b.cap),
             RankKind::Reverse => b.cap.cmp(&a.cap),
             RankKind::Random(seed) => hash2(a, &seed).cmp(&hash2(b, &seed)),
+            RankKind::Flat => Ordering::Equal,
         }
     }
 }
